@@ -6,6 +6,8 @@ import CryoCat.Lemmas.C17_Table
 import CryoCat.Model.C17_Load
 import Mathlib.Tactic.Ring
 import Mathlib.Algebra.Field.Basic
+import CryoCat.Lemmas.C17_Ext
+import CryoCat.Lemmas.C17_Code
 /-! C17 — property theorems (tilt-series metadata). Only theorems and non-vacuity examples. -/
 namespace CryoCat.C17
 
@@ -39,24 +41,75 @@ theorem dose_keys_documented : Gen.C17.exposureKey = ['E', 'x', 'p', 'o', 's', '
 theorem defocus_constants_documented : Gen.C17.angToMicronGctf = 1 / 10000 ∧ Gen.C17.angToMicronCtffind = 1 / 10000 ∧
     Gen.C17.meanDivisor = 2 ∧ Gen.C17.tltSortsByDefault = true ∧ Gen.C17.emMinMax = true := by decide +kernel
 
-/-- the STOPGAP wedge-list columns, their order, and what is assigned to each -/
+/-- the STOPGAP wedge-list columns, their order, and what is assigned to each (local variables inlined by the translator: only
+parameters and loader calls are named, so renaming a local does not change the value) -/
 theorem wedge_columns_documented : Gen.C17.wedgeColumns =
     ["tomo_num", "pixelsize", "tomo_x", "tomo_y", "tomo_z", "z_shift", "tilt_angle", "defocus", "exposure", "voltage", "amp_contrast", "cs"] ∧
-    Gen.C17.wedgeAssignments = [("tilt_angle", "tilts"), ("defocus", "defocus"), ("exposure", "dose"), ("tomo_num", "tomo_id"),
-      ("pixelsize", "pixel_size"), ("z_shift", "z_shift.values[0][0]"), ("voltage", "voltage"), ("amp_contrast", "amp_contrast"), ("cs", "cs")] ∧
+    Gen.C17.wedgeAssignments = [("tilt_angle", "ioutils.tlt_load(tlt_file)"),
+      ("defocus", "ioutils.defocus_load(ctf_file,ctf_file_type)['defocus_mean'].values"), ("exposure", "ioutils.total_dose_load(dose_file)"),
+      ("tomo_num", "tomo_id"), ("pixelsize", "pixel_size"),
+      ("['tomo_x','tomo_y','tomo_z']", "np.repeat(ioutils.dimensions_load(tomo_dim).values,ioutils.tlt_load(tlt_file).shape[0],axis=0)"),
+      ("z_shift", "ioutils.z_shift_load(z_shift).values[0][0]"), ("voltage", "voltage"), ("amp_contrast", "amp_contrast"), ("cs", "cs")] ∧
     Gen.C17.wedgeEmColumns = ["tomo_num", "min_angle", "max_angle"] := by decide
 
 /-! ### sorting by tilt changes only the order -/
 
 /-- the table after `sort_by_tilt()` is a permutation of the table before -/
 theorem sort_perm (m : Mdoc) : (sortByTilt false m).rows.Perm m.rows := by
-  simp only [sortByTilt, sortRowsBy]
+  simp only [sortByTilt, sortRowsBy, Bool.false_and, Bool.false_eq_true, if_false]
   exact List.mergeSort_perm _ _
 
-/-- header entries, titles, section id and columns are untouched (also with `reset_z_value`) -/
-theorem sort_keeps_header (m : Mdoc) (reset : Bool) :
+/-- the key `sort_by_tilt(reset_z_value=True)` assigns to is the literal "ZValue", whatever the section id of the object -/
+theorem reset_key_documented : Gen.C17.resetKey = ['Z', 'V', 'a', 'l', 'u', 'e'] ∧ Gen.C17.resetUsesSectionId = false := by decide
+
+/-- header entries, titles and the section id are untouched, in every case -/
+theorem sort_keeps_info (m : Mdoc) (reset : Bool) :
+    (sortByTilt reset m).info = m.info ∧ (sortByTilt reset m).titles = m.titles ∧ (sortByTilt reset m).sid = m.sid := by
+  unfold sortByTilt resetForeign
+  dsimp only
+  split
+  · split <;> exact ⟨rfl, rfl, rfl⟩
+  · exact ⟨rfl, rfl, rfl⟩
+
+/-- header entries, titles, section id and columns are untouched — without `reset_z_value`, and with it whenever the reset hits the
+section column (a ZValue mdoc). (Before the hardening pass this was stated for every object; the model then renumbered `z` whatever the
+section id, which is not what the code does: see `sort_reset_foreign_adds_entry`.) -/
+theorem sort_keeps_header (m : Mdoc) (reset : Bool) (h : reset = false ∨ resetHitsSection m = true) :
     (sortByTilt reset m).info = m.info ∧ (sortByTilt reset m).titles = m.titles ∧
-    (sortByTilt reset m).sid = m.sid ∧ (sortByTilt reset m).cols = m.cols := ⟨rfl, rfl, rfl, rfl⟩
+    (sortByTilt reset m).sid = m.sid ∧ (sortByTilt reset m).cols = m.cols := by
+  have hc : (reset && !resetHitsSection m) = false := by
+    rcases h with h | h <;> simp [h]
+  simp only [sortByTilt, hc, Bool.false_eq_true, if_false, and_self]
+
+/-- **C17-K3, exactly.** On an object whose section column is not the hard-coded key (a FrameSet mdoc; no data column of that
+name), `sort_by_tilt(reset_z_value=True)` does NOT change "only the order": the table gains a column `ZValue` and every image
+gains one entry (which `write` prints as `ZValue = k` inside every section), while the section values stay as they were. -/
+theorem sort_reset_foreign_adds_entry (m : Mdoc) (hs : resetHitsSection m = false) (hk : Gen.C17.resetKey ∉ m.cols) :
+    (sortByTilt true m).cols = m.cols ++ [Gen.C17.resetKey] ∧ (sortByTilt true m).cols ≠ m.cols ∧
+    (sortByTilt true m).rows.map (·.z) = (sortByTilt false m).rows.map (·.z) ∧
+    (sortByTilt true m).rows.map (fun r => r.cells.length) = (sortByTilt false m).rows.map (fun r => r.cells.length + 1) := by
+  have hi : ¬ (List.idxOf Gen.C17.resetKey m.cols < m.cols.length) := by
+    intro h; exact hk (List.idxOf_lt_length_iff.mp h)
+  have hmap : ∀ (rows : List Row) (n : Nat),
+      (List.map (fun p : Row × Nat => ({ p.1 with cells := p.1.cells ++ [Val.int (Nat.toDigits 10 p.2)] } : Row)) (rows.zipIdx n)).map (·.z) = rows.map (·.z) ∧
+      (List.map (fun p : Row × Nat => ({ p.1 with cells := p.1.cells ++ [Val.int (Nat.toDigits 10 p.2)] } : Row)) (rows.zipIdx n)).map (fun r => r.cells.length)
+        = rows.map (fun r => r.cells.length + 1) := by
+    intro rows
+    induction rows with
+    | nil => intro n; exact ⟨rfl, rfl⟩
+    | cons r rs ih => intro n; simp [List.zipIdx_cons, ih (n + 1)]
+  simp only [sortByTilt, hs, Bool.not_false, Bool.and_true, Bool.true_and, if_true, resetForeign, hi, if_false,
+    Bool.false_and, Bool.false_eq_true]
+  refine ⟨trivial, ?_, (hmap _ 0).1, (hmap _ 0).2⟩
+  intro h
+  have := congrArg List.length h
+  simp at this
+
+/-- non-vacuity: a FrameSet object (as long as the source hard-codes the key: when C17-K3 is repaired with `self.imgs[self.section_id]`, only the
+literal in `reset_key_documented` changes and `sort_reset_foreign_adds_entry` becomes vacuous) -/
+example : Gen.C17.resetUsesSectionId = false →
+    resetHitsSection { info := [], titles := [], sid := "FrameSet".toList, cols := ["TiltAngle".toList], rows := [] } = false := by decide
+example : resetHitsSection { info := [], titles := [], sid := "ZValue".toList, cols := ["TiltAngle".toList], rows := [] } = true := by decide
 
 /-- … and it is ascending in the tilt angle -/
 theorem sort_sorted (m : Mdoc) :
@@ -70,13 +123,14 @@ theorem sort_sorted (m : Mdoc) :
     (fun a b => by
       simp only [Bool.or_eq_true, decide_eq_true_eq]
       exact Rat.le_total) m.rows
-  simp only [sortByTilt, sortRowsBy, sort_key_documented.2.1, if_true]
+  simp only [sortByTilt, sortRowsBy, sort_key_documented.2.1, if_true, Bool.false_and, Bool.false_eq_true, if_false]
   exact h.imp (fun hab => by simpa using hab)
 
-/-- `reset_z_value=True` renumbers the section values and changes nothing else in a row -/
-theorem sort_reset_cells (m : Mdoc) :
+/-- `reset_z_value=True` on an object whose section column the reset hits (ZValue mdoc) renumbers the section values and changes
+nothing else in a row (hypothesis added in the hardening pass: for other objects the code adds a column, `sort_reset_foreign_adds_entry`) -/
+theorem sort_reset_cells (m : Mdoc) (hs : resetHitsSection m = true) :
     (sortByTilt true m).rows.map (fun r => (r.cells, r.removed)) = (sortByTilt false m).rows.map (fun r => (r.cells, r.removed)) := by
-  simp only [sortByTilt, renumber, if_true, List.map_map]
+  simp only [sortByTilt, hs, Bool.not_true, Bool.and_false, Bool.false_and, Bool.false_eq_true, if_false, renumber, if_true, List.map_map]
   generalize sortRowsBy _ _ _ = rows
   have : ∀ n, List.map ((fun r : Row => (r.cells, r.removed)) ∘ fun p : Row × Nat => { p.1 with z := Nat.toDigits 10 p.2 }) (rows.zipIdx n)
       = List.map (fun r => (r.cells, r.removed)) rows := by
@@ -783,5 +837,110 @@ theorem defocus_array_rows {K : Type} [_root_.Field K] (fG fC d : K) (rows : Lis
 
 example : asciiLower "GCTF" = "gctf" ∧ asciiLower "CtfFind4" = "ctffind4" ∧ defocusReader "relion" = none ∧
     defocusReader "Warp" = some "warp_ctf_read" := by decide
+
+/-! ### hardening pass: defaults, pinned source shapes, the reader outside the strict model, code-level wedge lists -/
+
+/-- float32 is the `data_type` default of `one_value_per_line_read` (pinned here; the oracle compares the loaders' numbers with the
+numbers of the file within rel. 2e-6, whatever the float width) -/
+theorem one_value_dtype_documented : Gen.C17.oneValueDtype = "np.float32" := by decide
+
+/-- `gctf_read` selects its columns by an explicit NAME list (U, V, angle, phase shift — the order of the result, not of the
+file) and scales positions 0 and 1 of that selection -/
+theorem gctf_columns_documented : Gen.C17.gctfColumns = ["rlnDefocusU", "rlnDefocusV", "rlnDefocusAngle", "rlnPhaseShift"] ∧
+    Gen.C17.gctfPhaseColumn = "rlnPhaseShift" ∧ Gen.C17.gctfScaleLo = 0 ∧ Gen.C17.gctfScaleHi = 2 := by decide
+
+/-- `indices_load` builds a new array for the 1-based → 0-based shift (`x = x - 1`), counts from 1 by default -/
+theorem indices_load_documented : Gen.C17.indicesShiftPure = true ∧ Gen.C17.indicesFrom1Default = true := by decide
+
+/-- the signature defaults the statement's operations rely on: `write(removed=False, overwrite=False)`,
+`remove_images(kept_only=True)`, `sort_by_tilt(reset_z_value=False)`, `Mdoc(section_id="ZValue")`,
+`mdoc.remove_images(numbered_from_1=True)`, `defocus_load(file_type="gctf")`, and in both wedge-list functions
+`ctf_file_type="gctf"`, `z_shift=0`, `voltage=300`, `amp_contrast=0.07`, `cs=2.7` -/
+theorem defaults_documented : Gen.C17.writeRemovedDefault = false ∧ Gen.C17.writeOverwriteDefault = false ∧
+    Gen.C17.removeKeptOnlyDefault = true ∧ Gen.C17.sortResetDefault = false ∧ Gen.C17.mdocSectionIdDefault = "ZValue" ∧
+    Gen.C17.scriptFrom1Default = true ∧ Gen.C17.defocusFileTypeDefault = "gctf" ∧
+    Gen.C17.sgDefaults = ("gctf", [0, 300, 7 / 100, 27 / 10]) ∧ Gen.C17.batchDefaults = ("gctf", [0, 300, 7 / 100, 27 / 10]) ∧
+    Gen.C17.sgDropsNanColumnsByDefault = true ∧ Gen.C17.batchLooksUpByTomoId = true := by decide +kernel
+
+/-- normalised whole-body dumps (docstring dropped, locals renamed to v0, v1, … in binding order, signature included) of the
+functions that have branches the correspondence run never executes (`.xml` / `.csv` / warp / DateTime paths, index files) and of
+the short helpers of `Mdoc`: an added, removed or edited statement changes the digest; renaming a local does not -/
+theorem body_digests_documented : Gen.C17.bodyDigests = [("ioutils.py:tlt_load", "161384711cab65ae"), ("ioutils.py:total_dose_load", "6896b2d70032d592"), ("ioutils.py:defocus_load", "6f51042c781adf83"), ("ioutils.py:indices_load", "27cc02b062460ddf"), ("ioutils.py:one_value_per_line_read", "07acf8de14003d3d"), ("mdoc.py:Mdoc.__init__", "598807ac4017f061"), ("mdoc.py:Mdoc.remove_image", "bdad76b605305919"), ("mdoc.py:Mdoc.remove_images", "0054452332c8cb73"), ("mdoc.py:Mdoc.kept_images", "60ca13db7754f731"), ("mdoc.py:Mdoc.removed_images", "8c7ce118d7aefa10"), ("mdoc.py:Mdoc.get_image_feature", "748c3b4ab5eed2a2"), ("mdoc.py:remove_images", "3e0771a349297a93"), ("mdoc.py:sort_mdoc_by_tilt_angles", "907075bac05c704b"), ("wedgeutils.py:check_data_consistency", "d220e2ac1f16e2a6"), ("wedgeutils.py:load_wedge_list_sg", "f54a3b09bb2346e8")] := by decide
+
+/-- **the extended reader is conservative**: every text the strict model `parseMdoc` reads is read by `parseMdocX` (which follows
+the code on duplicate header keys and on every decimal / exponent TiltAngle spelling) into the same object — so all theorems
+about `parseMdoc` speak about what the driver compares the implementation with -/
+theorem parse_ext_conservative (lines : List Str) (m : Mdoc) (h : parseMdoc lines = some m) : parseMdocX lines = some m :=
+  parseMdocX_extends lines m h
+
+/-- what the extension adds: a repeated header key (dict overwrite: first position, last value), `+5` and `1e-05` tilts -/
+example : (parseMdocX ["A = 1".toList, "B = 2".toList, "A = 3".toList, "[ZValue = 0]".toList, "TiltAngle = +5".toList]).map (fun m => (m.info, m.rows)) =
+    some ([("A".toList, Val.int "3".toList), ("B".toList, Val.int "2".toList)], [⟨"0".toList, [Val.tilt false "5".toList "0".toList], false⟩]) := by decide
+example : parseMdoc ["A = 1".toList, "A = 3".toList, "[ZValue = 0]".toList, "TiltAngle = 5".toList] = none := by decide
+example : toTiltX (classify "1e-05".toList) = some (Val.tilt false "0".toList "00001".toList) ∧
+    toTiltX (classify "-2.50E+1".toList) = some (Val.tilt true "25".toList "0".toList) ∧ toTilt (classify "1e-05".toList) = none := by decide
+/-- a TiltAngle of the exponent-form class survives write + re-read in the extended reader (as it does in the code: the column
+is converted with `astype(float)`), unlike any other cell of that class (C17-K1) -/
+example : toTiltX (classify (Val.tilt false "0".toList "00001".toList).fmt) = some (Val.tilt false "0".toList "00001".toList) := by decide
+/-- the named classes outside the quantifier, and a text the code refuses -/
+example : whyNone ["[ZValue = 0]".toList, "TiltAngle = 1".toList, "X = 5".toList, "[ZValue = 1]".toList, "TiltAngle = 2".toList] = .diffKeys ∧
+    whyNone ["[ZValue = 0]".toList, "TiltAngle = 1".toList, "[T = 5]".toList] = .bracketInSection ∧
+    whyNone ["[ZValue = 0]".toList, "TiltAngle = 1".toList, "X = 1".toList, "X = 2".toList] = .dupKeyInSection ∧
+    whyNone ["[ZValue = +3]".toList, "TiltAngle = 1".toList] = .secValueForm ∧
+    whyNone ["[ZValue = 3]".toList, "TiltAngle = nan".toList] = .tiltForm ∧
+    whyNone ["[ZValue = 3]".toList, "TiltAngle = abc".toList] = .raises ∧ whyNone ["A = 1".toList] = .raises := by decide
+
+/-- `indices_load`: the j-th index is the j-th given index, minus one when the input counts from 1; as given otherwise. The result
+is a function of the given list alone (the model has no state: using the same list for a second mdoc addresses the same
+positions — the code keeps that promise only because it builds a new array, `indices_load_documented`) -/
+theorem indices_load_spec (xs : List Int) (j : Nat) :
+    (indicesLoad true xs)[j]? = xs[j]?.map (· - 1) ∧ indicesLoad false xs = xs := by
+  simp [indicesLoad]
+
+/-- the console-level `mdoc.remove_images(path, idx, numbered_from_1)` is `Mdoc.remove_images` on the shifted indices among the KEPT
+images (so `remove_flags_only`, `kept_index_mapping`, `targets_spec` apply to it) -/
+theorem remove_script_spec (f1 : Bool) (xs : List Int) (m : Mdoc) :
+    removeImagesScript f1 xs m = removeImages (if f1 then xs.map (· - 1) else xs) true m := by
+  simp [removeImagesScript, indicesLoad, defaults_documented.2.2.1]
+
+/-- **gctf column order is irrelevant** (seeded change `gctf-column-order`): the code-level model of `gctf_read` — select by the
+source's name list from a table whose columns are in FILE order, scale positions 0..1 of the selection — returns for every
+file order the Å→µm-scaled U and V found by name, the angle, the phase shift, and the mean (`defocusRow`, about which
+`defocus_units` speaks) -/
+theorem gctf_column_order_irrelevant {K : Type} [_root_.Field K] (f d : K) (cols : List String) (row : List K) (u v a p : K)
+    (hph : cols.contains "rlnPhaseShift" = true)
+    (hu : (cols.zip row).lookup "rlnDefocusU" = some u) (hv : (cols.zip row).lookup "rlnDefocusV" = some v)
+    (ha : (cols.zip row).lookup "rlnDefocusAngle" = some a) (hp : (cols.zip row).lookup "rlnPhaseShift" = some p) :
+    gctfReadCode f d cols [row] = some [defocusRow f d u v a p] := gctf_code_row f d cols row u v a p hph hu hv ha hp
+
+theorem gctf_without_phase_shift {K : Type} [_root_.Field K] (f d : K) (cols : List String) (row : List K) (u v a : K)
+    (hph : cols.contains "rlnPhaseShift" = false)
+    (hu : (cols.zip row).lookup "rlnDefocusU" = some u) (hv : (cols.zip row).lookup "rlnDefocusV" = some v)
+    (ha : (cols.zip row).lookup "rlnDefocusAngle" = some a) :
+    gctfReadCode f d cols [row] = some [defocusRow f d u v a 0] := gctf_code_row_nophase f d cols row u v a hph hu hv ha
+
+/-- alphabetical column order (angle before U and V), an unrelated column in between -/
+example : gctfReadCode (1 / 10000 : Rat) 2 ["rlnDefocusAngle", "rlnDefocusU", "rlnVoltage", "rlnDefocusV", "rlnPhaseShift"] [[45, 20000, 300, 30000, 1]]
+    = some [{ defocus1 := 2, defocus2 := 3, astigmatism := 45, phaseShift := 1, defocusMean := 5 / 2 }] := by decide +kernel
+
+/-- **`create_wedge_list_sg`, code = specification**: `np.repeat(dimensions.values, n, axis=0)` of the one-row dimension table and
+`z_shift.values[0][0]` give every row that tomogram's dimensions and z-shift: the code-level list is `wedgeSingle` -/
+theorem wedge_single_code_spec {α : Type} (c : Consts α) (id : Int) (x y z zs : α) (tilts : List α) (defocus dose : Option (List α)) :
+    wedgeSingleCode c { id := id, dims := [[x, y, z]], zTable := [[zs]], tilts := tilts, defocus := defocus, dose := dose }
+      = wedgeSingle c { id := id, dimX := x, dimY := y, dimZ := z, zShift := zs, tilts := tilts, defocus := defocus, dose := dose } :=
+  wedge_single_code_eq c id x y z zs tilts defocus dose
+
+/-- **`create_wedge_list_sg_batch`, code = specification**: the dimensions and the z-shift are looked up BY TOMOGRAM NUMBER (first
+row of the table with that `tomo_id`, whatever the order or extent of the table — seeded change `wedge-zshift-pairing` pairs by
+position instead), then the batch list is `wedgeBatch` of the tomograms these look-ups denote, to which `wedge_rows` applies -/
+theorem wedge_batch_code_spec {α : Type} (c : Consts α) (b : BatchIn α) (ts : List (Tomo α)) (h : b.ids.mapM (batchTomo b) = some ts) :
+    wedgeBatchCode c b = wedgeBatch c ts := wedge_batch_code_eq c b ts h
+
+/-- a z-shift table listed in another order than the tomogram list, and covering more tomograms -/
+example : wedgeBatchCode (⟨1, 300, 7, 27⟩ : Consts Int)
+    { ids := [7, 2], dimTable := [(2, [10, 20, 30]), (7, [11, 21, 31])], zTable := [(5, 55), (2, 22), (7, 77)],
+      files := [(7, ([1, 2], none, none)), (2, ([3], none, none))] }
+    = some [⟨7, 1, 11, 21, 31, 77, 1, none, none, 300, 7, 27⟩, ⟨7, 1, 11, 21, 31, 77, 2, none, none, 300, 7, 27⟩,
+            ⟨2, 1, 10, 20, 30, 22, 3, none, none, 300, 7, 27⟩] := by decide
 
 end CryoCat.C17
